@@ -6,6 +6,7 @@ import (
 	"github.com/go-i2p/crypto/dsa"
 	"github.com/go-i2p/crypto/ecdsa"
 	"github.com/go-i2p/crypto/ed25519"
+	"github.com/go-i2p/crypto/ed25519ph"
 	elgamal "github.com/go-i2p/crypto/elg"
 	"github.com/go-i2p/crypto/types"
 	"github.com/samber/oops"
@@ -411,8 +412,10 @@ func constructEd25519PHKey(data []byte) (types.SigningPublicKey, error) {
 			KEYCERT_SIGN_ED25519PH_SIZE, len(data))
 	}
 
-	// Create Ed25519PublicKey from the bytes using safe constructor
-	ed25519ph_key, err := ed25519.NewEd25519PublicKey(data)
+	// Create an Ed25519ph public key: its verifier checks the pre-hashed (SHA-512, RFC 8032
+	// section 5.1) variant. A plain Ed25519 key object would accept pure Ed25519 signatures
+	// and reject genuine Ed25519ph ones.
+	ed25519ph_key, err := ed25519ph.NewEd25519phPublicKey(data)
 	if err != nil {
 		return nil, oops.Wrapf(err, "failed to construct Ed25519ph public key")
 	}
